@@ -363,6 +363,7 @@ func funcFullName(fn *types.Func) string {
 
 func (e *Engine) verifyFunc(fc *FuncContract) []*Oblig {
 	full := fc.FullName()
+	e.ctx = e.freshCtx()
 	v := &FnV{e: e, c: e.ctx, fc: fc, name: shortName(full), boxed: map[types.Object]bool{},
 		closures: map[string]*closureRec{}, inlining: map[string]bool{}, labels: map[ast.Stmt]string{}}
 	decl, pkg := e.decls[full], e.declPkg[full]
@@ -495,6 +496,15 @@ func (e *Engine) verifyFunc(fc *FuncContract) []*Oblig {
 		}
 		v.canary(ex.st, ex.node, ord)
 		v.checkPosts(ex, sc, ord)
+	}
+	tagTypes := map[int]types.Type{}
+	for _, tt := range e.ctx.tagTypes {
+		tagTypes[e.ctx.tagOf(tt)] = tt
+	}
+	for _, ob := range v.obligs {
+		if ob.Replay != nil {
+			ob.Replay.TagTypes = tagTypes
+		}
 	}
 	return v.obligs
 }
